@@ -58,3 +58,46 @@ Proof.
   split; [exact ex1_shape_ok|]. repeat split; try (vm_compute; reflexivity).
   eexists. vm_compute. reflexivity.
 Qed.
+
+(* ---------------- client half ---------------- *)
+From Smtp Require Import Bytes Reply ClientReply Client ClientProofs.
+
+Theorem C10_client_no_downgrade : forall c r c',
+  quiet c -> c_init_starttls c = (r, c') ->
+  exists ls, c_out c' = c_out c ++ lines ls /\ Forall (tls_line c) ls
+    /\ (r <> RNil -> c_tls c' = c_tls c)
+    /\ (r = RNil -> c_tls c' = true /\ c_did_hello c' = false).
+Proof. exact ClientProofs.C10_client_no_downgrade. Qed.
+
+Theorem C10_client_needs_offer_and_220 : forall c c',
+  c_init_starttls c = (RNil, c') ->
+  exists c1 c2 code msg,
+    c_hello c = (RNil, c1)
+    /\ has_ext (c_ext c1) (bs "STARTTLS") = true
+    /\ c_cmd c1 220 (bs "STARTTLS") = ((code, msg, RNil), c2) /\ code = 220%Z
+    /\ c' = switch_to_tls c2.
+Proof. exact ClientProofs.C10_client_needs_offer_and_220. Qed.
+
+Theorem C10_client_not_offered : forall c c1,
+  c_hello c = (RNil, c1) -> has_ext (c_ext c1) (bs "STARTTLS") = false ->
+  c_init_starttls c = (RLocal err_no_starttls, c1).
+Proof. exact ClientProofs.C10_client_not_offered. Qed.
+
+Theorem C10_client_plaintext_dropped : forall c x, switch_to_tls (set_in c x) = switch_to_tls c.
+Proof. exact ClientProofs.switch_drops_plaintext. Qed.
+
+Theorem C10_client_rehello : forall c c3,
+  c_did_hello c = false -> c_did_greet c = true ->
+  c_hello c = (RNil, c3) ->
+  c_ext c3 = None
+  \/ exists c1 code msg rest,
+       printf_line (set_did_hello c true) (hello_verb c ++ c_local c) = (true, c1)
+       /\ client_read_response 250 (c_in c) = ((code, msg, CNil), rest)
+       /\ c_ext c3 = Some (parse_ext msg).
+Proof. exact ClientProofs.C10_client_rehello. Qed.
+
+Print Assumptions C10_client_no_downgrade.
+Print Assumptions C10_client_needs_offer_and_220.
+Print Assumptions C10_client_not_offered.
+Print Assumptions C10_client_plaintext_dropped.
+Print Assumptions C10_client_rehello.
